@@ -180,6 +180,11 @@ def check(rep, ctx):
     for row in bool_default_spellings(ctx):
         rep.check(R10, row["ok"], construct="codegen.generate_schema:format_default", stmt=row["case"], message=row["message"],
                   file=gsrc.rel, line=row["line"])
+    from ..gen_tables import naming_rows
+    R11 = rep.rule("C16-G11-naming", "to_snake_case / basic_name applied to the shipped vocabulary (capitalised-word form of every field name, "
+                   "every top-level class name) give the shipped names", floor=500)
+    for row in naming_rows(ctx):
+        rep.check(R11, row["ok"], construct=row["construct"], stmt=row["stmt"], message=row["message"], file=row["file"], line=row["line"])
     R8 = rep.rule("C16-G8-field", "format_dataclass_field: an explicit default is emitted as given whatever the tagging/ignorability; "
                   "metadata carries the kafka type and the tag iff tagged", floor=40,
                   necessary_because="ApiVersionsResponse.FinalizedFeaturesEpoch is tagged, ignorable and has default -1: it must stay -1")
